@@ -523,7 +523,7 @@ Lemma wf_sec h b k : wf_treeb (NSec h b k) =
           else true
    end) && wf_treeb_list k.
 Proof. reflexivity. Qed.
-Lemma wf_file h b k : wf_treeb (NFile h b k) = (zlen (f_guid h) =? 16) && wf_treeb_list k.
+Lemma wf_file h b k : wf_treeb (NFile h b k) = (zlen (f_guid h) =? 16) && bytes_ok (f_guid h) && wf_treeb_list k.
 Proof. reflexivity. Qed.
 Lemma wf_vol h b k : wf_treeb (NVol h b k) =
   (match k with
@@ -561,6 +561,7 @@ Proof.
         destruct (s_gd h) as [g0|]; cbn in G; [|discriminate]. inversion G; subst g. cbn in A.
         rewrite A in W1. discriminate.
   - rewrite wf_file in W. apply andb_true_iff in W. destruct W as [W1 W2].
+    apply andb_true_iff in W1. destruct W1 as [W1 _].
     cbn [Extract.json_project]. change (if sv_file_kids then map json_project k else []) with (map json_project k).
     constructor.
     + unfold file_rel. cbn. repeat split; auto. lia.
@@ -1010,7 +1011,7 @@ Proof.
     apply andb_true_iff in W. destruct W as [_ W2].
     destruct (HL k IH W2 (dir ++ [C_dec (s_order h)]) idx) as [[[js f2] i2] E]. rewrite E. eexists; reflexivity.
   - rewrite extract_file. cbv zeta.
-    change (wf_treeb (NFile h b k)) with ((zlen (f_guid h) =? 16) && wf_treeb_list k) in W.
+    change (wf_treeb (NFile h b k)) with ((zlen (f_guid h) =? 16) && bytes_ok (f_guid h) && wf_treeb_list k) in W.
     apply andb_true_iff in W. destruct W as [_ W2].
     destruct (HL k IH W2 (dir ++ [C_guid (f_guid h); C_dec idx]) (idx + 1)) as [[[js f2] i2] E]. rewrite E. eexists; reflexivity.
   - rewrite extract_vol. cbv zeta.
@@ -1518,10 +1519,10 @@ Proof.
   assert (Hsub : forall e, bytes_ok (sub 0 e buf) = true) by (intros; apply bytes_ok_sub; assumption).
   repeat brk H; inversion H; subst; clear H; (split; [|reflexivity]).
   all: assert (Hg : zlen (sub 0 16 buf) = 16) by (apply zlen_sub; lia).
-  all: try (split; [rewrite wf_file; cbn [f_guid wf_treeb_list]; rewrite Hg; reflexivity|reflexivity]).
+  all: try (split; [rewrite wf_file; cbn [f_guid wf_treeb_list]; rewrite Hg, (Hsub 16); reflexivity|reflexivity]).
   all: match goal with E : sections_loop _ _ _ _ _ _ = Ok (?l, _) |- _ =>
          destruct (sections_loop_inv _ HS _ _ _ _ _ _ _ (Hsub _) E) as [G O] end.
-  all: split; [rewrite wf_file; cbn [f_guid]; rewrite Hg; rewrite (good_list_wf _ G); reflexivity
+  all: split; [rewrite wf_file; cbn [f_guid]; rewrite Hg, (Hsub 16); rewrite (good_list_wf _ G); reflexivity
               |rewrite paths_ok_file, (good_list_paths _ G), andb_true_r; apply NoDup_nodupb; eapply ordered_nodup; eauto].
 Qed.
 
